@@ -72,6 +72,58 @@ static inline unsigned spec_elem_fixed_width(int t) {
   return (t == SPEC_T_TRUE || t == SPEC_T_FALSE || t == SPEC_T_BYTE) ? 1u : t == SPEC_T_DOUBLE ? 8u : t == SPEC_T_UUID ? 16u : 0u;
 }
 
+/* ---- independent skipper (native replay / demos): bytes occupied by one value of wire type t at
+ * p[0..n); -1 if truncated, malformed, or nested deeper than SPEC_MAX_DEPTH.  in_container: a bool
+ * occupies one byte (as list/set element or map key/value); as a struct field value it occupies none.
+ * Sizes are read like common readers do: low 32 bits of the varint, negative => malformed. ---- */
+#define SPEC_MAX_DEPTH 64
+static long spec_skip_value(const uint8_t *p, size_t n, int t, int in_container, int depth) {
+  unsigned u; uint64_t v; size_t pos = 0;
+  if (depth > SPEC_MAX_DEPTH) return -1;
+  switch (t) {
+    case SPEC_T_TRUE: case SPEC_T_FALSE: return in_container ? (n >= 1 ? 1 : -1) : 0;
+    case SPEC_T_BYTE: return n >= 1 ? 1 : -1;
+    case SPEC_T_I16: case SPEC_T_I32: case SPEC_T_I64: spec_varint_decode(p, n, &u); return u ? (long)u : -1;
+    case SPEC_T_DOUBLE: return n >= 8 ? 8 : -1;
+    case SPEC_T_UUID: return n >= 16 ? 16 : -1;
+    case SPEC_T_BINARY:
+      v = spec_varint_decode(p, n, &u);
+      if (!u || (int32_t)(uint32_t)v < 0 || (uint64_t)(uint32_t)v > n - u) return -1;
+      return (long)(u + (uint32_t)v);
+    case SPEC_T_LIST: case SPEC_T_SET: {
+      if (n < 1) return -1;
+      int et = p[0] & 15; uint64_t cnt = p[0] >> 4; pos = 1;
+      if (cnt == 15) { cnt = spec_varint_decode(p + 1, n - 1, &u); if (!u || (int32_t)(uint32_t)cnt < 0) return -1; cnt = (uint32_t)cnt; pos += u; }
+      if (cnt > n - pos) return -1;
+      for (uint64_t i = 0; i < cnt; i++) { long r = spec_skip_value(p + pos, n - pos, et, 1, depth + 1); if (r < 0) return -1; pos += (size_t)r; }
+      return (long)pos;
+    }
+    case SPEC_T_MAP: {
+      uint64_t cnt = spec_varint_decode(p, n, &u);
+      if (!u || (int32_t)(uint32_t)cnt < 0) return -1;
+      cnt = (uint32_t)cnt; pos = u;
+      if (cnt == 0) return (long)pos;
+      if (pos >= n || cnt > n - pos) return -1;
+      int kt = p[pos] >> 4, vt = p[pos] & 15; pos++;
+      for (uint64_t i = 0; i < cnt; i++) {
+        long r = spec_skip_value(p + pos, n - pos, kt, 1, depth + 1); if (r < 0) return -1; pos += (size_t)r;
+        r = spec_skip_value(p + pos, n - pos, vt, 1, depth + 1); if (r < 0) return -1; pos += (size_t)r;
+      }
+      return (long)pos;
+    }
+    case SPEC_T_STRUCT: {
+      for (;;) {
+        if (pos >= n) return -1;
+        uint8_t h = p[pos++];
+        if (h == 0) return (long)pos;
+        if ((h >> 4) == 0) { spec_varint_decode(p + pos, n - pos, &u); if (!u) return -1; pos += u; }
+        long r = spec_skip_value(p + pos, n - pos, h & 15, 0, depth + 1); if (r < 0) return -1; pos += (size_t)r;
+      }
+    }
+    default: return -1;
+  }
+}
+
 #ifdef CQV
 /* ======================= contract vocabulary (CBMC side only) ======================= */
 /* representation invariant of thrift_decoder_t */
@@ -102,14 +154,38 @@ static inline unsigned spec_elem_fixed_width(int t) {
 #define TD_DEPTH_OK(d) 1
 #define CQV_SKIP_ENTRY_CHECK(d) ((void)0)
 #endif
+/* exactness of thrift_skip (C13 "skipping unknown fields of every wire type"), enabled by -DCQV_SKIP_EXACT:
+ * a value of a fixed-width wire type occupies exactly its width (bool FIELD values live in the field
+ * header: 0 bytes; bool container ELEMENTS are one byte each), so a list/set of n fixed-width
+ * elements occupies header + n*width bytes. */
+#define SPEC_IS_FIXED(t) ((t) == THRIFT_TYPE_TRUE || (t) == THRIFT_TYPE_FALSE || (t) == THRIFT_TYPE_BYTE || \
+                          (t) == THRIFT_TYPE_DOUBLE || (t) == THRIFT_TYPE_UUID)
+#define SPEC_FIELD_WIDTH(t) ((t) == THRIFT_TYPE_BYTE ? (size_t)1 : (t) == THRIFT_TYPE_DOUBLE ? (size_t)8 : \
+                             (t) == THRIFT_TYPE_UUID ? (size_t)16 : (size_t)0)
+#define SPEC_ELEM_SH(t) ((t) == THRIFT_TYPE_DOUBLE ? 3 : (t) == THRIFT_TYPE_UUID ? 4 : 0) /* log2 of element width */
+#ifdef CQV_SKIP_EXACT
+#define TD_SKIP_EXACT(dec, type) \
+  __CPROVER_ensures((__CPROVER_old((dec)->status) == CARQUET_OK && (dec)->status == CARQUET_OK && SPEC_IS_FIXED(type)) ==> \
+                    TD_ADV(dec) == SPEC_FIELD_WIDTH(type))
+#define CQV_LIST_EXACT_INV (dec->status != CARQUET_OK || !SPEC_IS_FIXED(elem_type) || \
+                            dec->reader.pos == cqv_p1 + ((size_t)i << SPEC_ELEM_SH(elem_type)))
+#define CQV_LIST_EXACT_CHECK __CPROVER_assert(dec->status != CARQUET_OK || !SPEC_IS_FIXED(elem_type) || \
+                            dec->reader.pos == cqv_p1 + ((size_t)count << SPEC_ELEM_SH(elem_type)), \
+                            "skip of list/set<fixed-width T> consumes exactly count * width element bytes (bool elements: 1 byte each)")
+#else
+#define TD_SKIP_EXACT(dec, type)
+#define CQV_LIST_EXACT_INV 1
+#define CQV_LIST_EXACT_CHECK ((void)0)
+#endif
 /* contract of thrift_skip, shared verbatim by the function and its recursion twin thrift_skip__rec:
  * safe on any decoder state; invariant kept; cursor monotone; errors sticky; balanced nesting on success */
-#define THRIFT_SKIP_CONTRACT(dec) \
+#define THRIFT_SKIP_CONTRACT(dec, type) \
   __CPROVER_requires(TD_PRE(dec)) \
   __CPROVER_requires(TD_DEPTH_OK(dec)) \
   __CPROVER_assigns(TD_ASSIGNS_ALL(dec), cqv_skip_depth) \
   __CPROVER_ensures(TD_POST(dec)) \
   __CPROVER_ensures((dec)->status == CARQUET_OK ==> (dec)->nesting_level == __CPROVER_old((dec)->nesting_level)) \
-  __CPROVER_ensures(cqv_skip_depth == __CPROVER_old(cqv_skip_depth))
+  __CPROVER_ensures(cqv_skip_depth == __CPROVER_old(cqv_skip_depth)) \
+  TD_SKIP_EXACT(dec, type)
 #endif /* CQV */
 #endif
